@@ -20,6 +20,17 @@ CHECKS = {
             'differential builds once the builder leg is in place.', '§5 C19'),
 }
 
+CHECKS['C14'] = ('proof', 'Resolution order = scope chain; find_fqn/find_any are exactly the filter of all declarations by the chain / '
+                 'suffix predicate (soundness, completeness, multiplicity, order); validity invariant of every NamespaceIds producer; '
+                 'list/dotted/:: round trips (Properties/C14.v). Correspondence: exhaustive small scope (every single declaration x '
+                 'name x scope over a 3-identifier alphabet to depth 3) + sampled sets; identifier candidates over all code points < 0x300 + samples.',
+                 'trusted: Coq kernel, extraction+driver, harness (direct construction of ast objects; identity->uid mapping).', '§5 C14')
+CHECKS['C03'] = ('proof', 'Validity of a side <-> the documented rejections; assignment functional (exactly one semantics) and computed by '
+                 'the per-port decision; match fails iff an unknown port is named; accepted configurations expose exactly the non-injected '
+                 'ports with their specified semantics; every rejection is AdvShellError (Properties/C03.v). Correspondence: exhaustive '
+                 'per-side enumeration (18x18 selection pairs x 8 port sets), sampled cross product, full builds.',
+                 'trusted: as C14 + buildlib (JSON model rendering, header regex). Repaired defect: F4 (KeyError for an uncovered exposed port).', '§5 C03')
+
 NOT_YET = {
 }
 
